@@ -137,6 +137,13 @@ def run(res, proof):
             special.append(st)
     rng.shuffle(special)
     structs = structs[:60 if quick else 600] + ['(.+)+.', '((+))+(+)', '.+.+.', '(+)'] + special[:12 if quick else 200]
+    # 5 to 8 strands: a single assignment can then move the representation by more than half a cycle but not by n-1
+    many = []
+    for ns in (5, 6, 7, 8):
+        for _ in range(3 if quick else 20):
+            many.append(gen.random_structure(rng, rng.randint(ns, ns + 6), nstrands=ns, pair_bias=0.6))
+    structs += many + ['.+(+.+)+.', '(+(+(+)+)+).+.']
+    res.dist['structures_with_5_to_8_strands'] = len(many) + 2
     pre = ['reset', 'mk.dom\t0\ta\t5\t-\t-', 'mk.dom\t0\tb\t5\t-\t-']
     hmap = {'a': 0, 'b': 1}
     lines, impl = [], []
@@ -182,6 +189,7 @@ def run(res, proof):
         for _ in range(3 if quick else 12):
             run_seq(s, names, [rng.choice(ops) for _ in range(rng.randint(4, 30))])
         res.count('strands_%d' % min(n, 5))
+    res.dist['shared_input_scenarios'] = shared_inputs(iw, res)
     iw.reset()
     res.dist['op_sequences'] = nseq
     res.rule = ('complexes sampled from every well-formed structure up to %d positions (2 names) x every single op, (a sample of) every '
@@ -198,5 +206,73 @@ def run(res, proof):
     res.sample(lines[:10])
 
 
+SHARED = [  # (names, structure of A, structure of B): same strands, different pairing -> two different complexes
+    (['a', 'b', '+', 'a'], '(.+)', '..+.'),
+    (['a', '+', 'b', '+', 'a'], '(+.+)', '.+.+.'),
+    (['a', 'b', '+', 'b', 'a', '+', 'a'], '((+))+.', '(.+.)+.'),
+]
+
+
+def shared_inputs(iw, res, only=None):
+    """two complexes built from the SAME caller-owned sequence list (different structures), resp. the same structure list
+    (different sequences): assigning `turns` on one must not move the other, nor modify the caller's lists"""
+    n = 0
+    for idx, (names, sa, sb) in enumerate(SHARED):
+        for share in ('sequence', 'structure'):
+            for v in (1, 2, -1):
+                key = '%d:%s:%d' % (idx, share, v)
+                if only is not None and key != only:
+                    continue
+                iw.do('reset'); iw.do('mk.dom\t0\ta\t5\t-\t-'); iw.do('mk.dom\t0\tb\t5\t-\t-')
+                K = iw.classes['cplx'][0]
+                doms = {'a': iw.held[0], 'b': iw.held[1]}
+                if share == 'sequence':
+                    L = [('+' if x == '+' else doms[x]) for x in names]
+                    S1, S2 = list(sa), list(sb)
+                    A = K(L, S1, name='A'); B = K(L, S2, name='B')
+                    declB = (list(names), list(sb))
+                else:
+                    other = [('+' if x == '+' else ('b' if x == 'a' else 'a')) for x in names]
+                    S = list(sa)
+                    L, L2 = [('+' if x == '+' else doms[x]) for x in names], [('+' if x == '+' else doms[x]) for x in other]
+                    A = K(L, S, name='A'); B = K(L2, S, name='B')
+                    declB = (list(other), list(sa))
+                callerL, callerS = [str(x) for x in L], (list(S1) if share == 'sequence' else list(S))
+                tB, kB = B.turns, B.kernel_string
+                try:
+                    _ = list(B.pair_table); _ = list(B.strand_table)
+                    A.turns = v
+                    nowB = ([str(x) for x in B.sequence], list(B.structure))
+                    bad = []
+                    if nowB != declB:
+                        bad.append('B moved to %s / %s' % (' '.join(nowB[0]), ''.join(nowB[1])))
+                    if B.turns != tB or B.kernel_string != kB:
+                        bad.append('B.turns / kernel_string changed: %r %r' % (B.turns, B.kernel_string))
+                    if [str(x) for x in L] != callerL or (S1 if share == 'sequence' else S) != callerS:
+                        bad.append('the caller\'s list was modified in place')
+                    pt = [list(row) for row in B.pair_table]
+                    if pt != ref.ref_pair_table(''.join(declB[1])):
+                        bad.append('B.pair_table no longer matches its structure')
+                except Exception as e:
+                    bad = ['raised ' + type(e).__name__]; e = None
+                n += 1
+                if only is not None:
+                    print('scenario', key, '->', bad or 'ok')
+                if bad:
+                    res.violation('shared-input-list:' + share, {'scenario': key, 'call': 'A = ComplexS(L, S1, name="A"); B = ComplexS(%s, name="B"); '
+                                  'A.turns = %d   with %s / %s / %s' % ('L, S2' if share == 'sequence' else 'L2, S1', v, ' '.join(names), sa, sb)},
+                                  '; '.join(bad), 'B and the caller\'s lists are untouched by A.turns')
+                del A, B
+    return n
+
+
 def replay(body, repo):
+    if 'scenario' in body['input']:
+        iw = W.ImplWorld()
+        class R:
+            def violation(self, *a):
+                print('observed :', a[2])
+        shared_inputs(iw, R(), only=body['input']['scenario'])
+        print('required :', body.get('required'))
+        return 1
     return hist.replay_history(body, repo)
